@@ -43,7 +43,7 @@ ASSUMPTIONS = [
     'HITRAN files keep one wavenumber grid per (start, end) range and disjoint ranges, as the distributed files do',
 ]
 _Q = {'xsec': 6, 'cia': 8, 'ktab': 6, 'hist_xsec': 5, 'hist_cia': 5, 'hist_ktab': 5}
-_T = {'xsec': 130, 'cia': 170, 'ktab': 130, 'hist_xsec': 80, 'hist_cia': 80, 'hist_ktab': 80}
+_T = {'xsec': 70, 'cia': 100, 'ktab': 70, 'hist_xsec': 45, 'hist_cia': 45, 'hist_ktab': 45}
 BUDGET = {
     'quick': [dict(name='audit', env={}, shards=8, cases=_Q)],
     'thorough': [dict(name='audit', env={}, shards=16, cases=_T)],
